@@ -29,6 +29,24 @@ inline void crash_handler(int sig) {
   raise(sig);
 }
 
+// per-scenario watchdog: a scenario runs for milliseconds; one that is still running after VF_SCENARIO_TIMEOUT seconds
+// (default 45) is stuck (e.g. spinning on a lock in freed memory).  Take a backtrace of ourselves with gdb for the
+// violation key and leave, so that the runner does not have to wait for its own (much longer) timeout.
+inline void hang_handler(int) {
+  dump_partial();
+  const char h[] = "#HANG\n";
+  write_all(1, h, sizeof h - 1);
+  const char m[] = "\n[vf] TIMEOUT backtrace:\n";
+  write_all(2, m, sizeof m - 1);
+  char cmd[160];
+  snprintf(cmd, sizeof cmd, "gdb -p %d -batch -ex 'thread apply all bt 14' 1>&2 2>/dev/null", (int)getpid());
+  if (system(cmd) != 0) {
+    const char f[] = "(gdb failed)\n";
+    write_all(2, f, sizeof f - 1);
+  }
+  _exit(91);
+}
+
 inline std::vector<int> ints(const std::string& s, char sep) {
   std::vector<int> r;
   std::stringstream ss(s);
@@ -97,6 +115,9 @@ inline int det_main(int argc, char** argv) {
   for (int s : {SIGSEGV, SIGBUS, SIGABRT, SIGFPE, SIGILL})
     signal(s, crash_handler);
 #endif
+  signal(SIGALRM, hang_handler);
+  const char* to_env = getenv("VF_SCENARIO_TIMEOUT");
+  const unsigned scenario_timeout = to_env ? (unsigned)atoi(to_env) : 45u;
   std::istream* in = &std::cin;
   std::ifstream f;
   if (argc > 1) {
@@ -132,7 +153,9 @@ inline int det_main(int argc, char** argv) {
     // flush what we have: a crash must leave the "#B" marker of the dying scenario
     write_all(1, out.data(), out.size());
     out.clear();
+    alarm(scenario_timeout);
     it->second();
+    alarm(0);
     out.append(G.log);
     n = snprintf(hdr, sizeof hdr, "#E %d %ld\n", G.scn.prog, G.scn.sid);
     out.append(hdr, n);
